@@ -86,8 +86,8 @@ Definition eq_obs (s1 s2 : astate) : list N :=
       if (attr_wf s1 && attr_wf s2)%bool then 1%N else 0%N].
 
 (* Which guard of the theorems does a run leave first?  [class; step]:
-   0 = none (C11_refines_run applies to the whole run), 1 = the initial store holds {d}name for the default
-   namespace d (13b/13e; since fix bde0777 only the accessor ("", name) misbehaves there), 2 = an entry is
+   0 = none (C11_refines_run applies to the whole run), 1 = the initial store holds both name and {d}name
+   for the default namespace d (two XML attributes presented under one key), 2 = an entry is
    removed while another held object is a live view of it (two live objects for one entry), 3 = unused since
    fix 159ed68 (renaming between no namespace and the default namespace is inside the guard), 4 = outside
    the stated domain (illegal accessor, no such object), 5 = the initial state is not well-formed otherwise *)
@@ -130,6 +130,6 @@ Fixpoint run_class_from (y : sys) (l : list op) (i : N) : list N :=
               end
   end.
 Definition run_class (y : sys) (l : list op) : list N :=
-  if negb (no_collision (fst y)) then [1%N; 0%N]
+  if negb (no_double (fst y)) then [1%N; 0%N]
   else if negb (sys_wf y) then [5%N; 0%N]
   else run_class_from y l 0%N.
